@@ -2,6 +2,7 @@ package c09
 
 import (
 	"fmt"
+	"hash/fnv"
 	"math"
 	"math/big"
 	"sort"
@@ -94,15 +95,16 @@ type world struct {
 }
 
 type opDesc struct {
-	name   string
-	scheme string // "bgv" (also used by "bfv") or "ckks"
-	binary bool
-	kinds  []string // accepted kinds of op1 (binary only); nil = all kinds of the scheme
-	acc    bool     // the output is also an input (MulThenAdd family)
-	isNew  bool     // the method allocates its output
-	aDegs  []int    // degrees generated for op0
-	noBFV  bool
-	impl   string // name used in failure keys when several exported methods share one implementation (default scheme.name)
+	name     string
+	scheme   string // "bgv" (also used by "bfv") or "ckks"
+	binary   bool
+	kinds    []string // accepted kinds of op1 (binary only); nil = all kinds of the scheme
+	acc      bool     // the output is also an input (MulThenAdd family)
+	isNew    bool     // the method allocates its output
+	aDegs    []int    // degrees generated for op0
+	noBFV    bool
+	inPlaceA bool   // op0 is documented as modified in place: not asserted intact
+	impl     string // name used in failure keys when several exported methods share one implementation (default scheme.name)
 	// natural returns degree and level of the result as the corresponding New-method would allocate it
 	natural func(e *env, a *rlwe.Ciphertext, b any, arg [3]int) (int, int)
 	call    func(w *world, a *rlwe.Ciphertext, b any, out *rlwe.Ciphertext, arg [3]int) (*rlwe.Ciphertext, error)
@@ -697,7 +699,7 @@ func (c *EvalCase) run(e *env, o *opDesc, aliasOn, histOn, dirtyOn bool) (res ou
 		pre  string
 	}
 	var ws []watched
-	if out != a {
+	if out != a && !o.inPlaceA {
 		ws = append(ws, watched{name: "op0", v: a})
 	}
 	if o.binary {
@@ -708,6 +710,7 @@ func (c *EvalCase) run(e *env, o *opDesc, aliasOn, histOn, dirtyOn bool) (res ou
 	for i := range ws {
 		ws[i].pre = snapAny(ws[i].v)
 	}
+	preParams := paramFP(e.rp)
 	preEvk := hashEvk(e.evk)
 	preSwk := hashGadget(&e.swk.GadgetCiphertext)
 
@@ -728,6 +731,9 @@ func (c *EvalCase) run(e *env, o *opDesc, aliasOn, histOn, dirtyOn bool) (res ou
 	}
 	if hashEvk(e.evk) != preEvk {
 		res.mutated = append(res.mutated, "evk")
+	}
+	if paramFP(e.rp) != preParams {
+		res.mutated = append(res.mutated, "parameter-tables")
 	}
 	if hashGadget(&e.swk.GadgetCiphertext) != preSwk {
 		res.mutated = append(res.mutated, "swk")
@@ -984,3 +990,29 @@ func runEval(c EvalCase, rec *h.Rec) error {
 }
 
 var _ = math.Abs
+
+// paramFP fingerprints the tables of a parameter object that every evaluator shares (moduli, reduction constants,
+// NTT roots): an operation must not write to them.
+func paramFP(p *rlwe.Parameters) uint64 {
+	hh := fnv.New64a()
+	for _, r := range []*ring.Ring{p.RingQ(), p.RingP()} {
+		if r == nil {
+			continue
+		}
+		for _, s := range r.SubRings {
+			hashU64(hh, s.Modulus)
+			hashU64(hh, s.MRedConstant)
+			for _, v := range s.BRedConstant {
+				hashU64(hh, v)
+			}
+			hashU64(hh, s.NInv)
+			for _, v := range s.RootsForward {
+				hashU64(hh, v)
+			}
+			for _, v := range s.RootsBackward {
+				hashU64(hh, v)
+			}
+		}
+	}
+	return hh.Sum64()
+}
